@@ -243,6 +243,12 @@ func RecordStream(e *fw.Env, channels, blocks int) (*Stream, *Trace, error) {
 	w := l.W
 	st := &Stream{Channels: channels}
 	corpus := errorCorpus(l)
+	multi := MultiDefectMemos(l)
+	for _, tpl := range l.Templates() {
+		for _, m := range DoubleMutations(tpl, e.R.Intn, 40) {
+			multi = append(multi, m.Memo)
+		}
+	}
 	rel := w.K("relayer")
 	seq := uint64(1 << 42)
 	// the recording world executes each block as it is generated (sequences come from state)
@@ -255,10 +261,13 @@ func RecordStream(e *fw.Env, channels, blocks int) (*Stream, *Trace, error) {
 		for k := 0; k < nRecv; k++ {
 			var t run.Transfer
 			switch e.R.Intn(10) {
-			case 0, 1, 2, 3: // mutated memo (mostly error acknowledgements)
+			case 0, 1, 2: // mutated memo (mostly error acknowledgements)
 				m := corpus[e.R.Intn(len(corpus))]
 				t = l.NewTransfer(e.R, m.Denom, big.NewInt(1_000_000), nil)
 				t.Memo = m.Memo
+			case 3: // several defects at once: which error is committed must not depend on iteration order
+				t = l.NewTransfer(e.R, world.USDC, big.NewInt(1_000_000), nil)
+				t.Memo = multi[e.R.Intn(len(multi))]
 			case 4, 5, 6: // hostile attributes
 				t, _ = genHostile(e.R, l, 10)
 			case 7: // hostile packet data
@@ -362,12 +371,12 @@ func CheckC19(e *fw.Env, _ *Lab) {
 	}
 	st, _, err := RecordStream(e, 2, blocks)
 	if err != nil {
-		e.Res.Inconc("recording failed: %v", err)
+		e.Res.Fatal("recording failed: %v", err)
 		return
 	}
 	ref, err := Replay(st)
 	if err != nil {
-		e.Res.Inconc("reference replay failed: %v", err)
+		e.Res.Fatal("reference replay failed: %v", err)
 		return
 	}
 	nTx, nErrAck, nOkAck, nFailed := 0, 0, 0, 0
@@ -468,7 +477,7 @@ func CheckC19(e *fw.Env, _ *Lab) {
 		rr := RunRaceBinary(e.Seed, e.Thorough())
 		switch {
 		case !rr.Ran:
-			e.Res.Inconc("race-detector binary /verif/bin/orbcheck-race is missing (bin/check builds it for C19)")
+			e.Res.Fatal("race-detector binary /verif/bin/orbcheck-race is missing (bin/check builds it for C19)")
 		default:
 			for k, v := range rr.Counts {
 				e.Res.CountN("race:"+k, int(v))
@@ -489,7 +498,7 @@ func CheckC19(e *fw.Env, _ *Lab) {
 			if rr.Diverged != "" {
 				e.Res.Violate(fw.Violation{Property: "C19", Kind: "replay-differs", Tags: map[string]string{"what": "race-build-parallel-worlds"}, Detail: rr.Diverged})
 			} else if rr.ExitErr != "" {
-				e.Res.Inconc("race run failed: %s", rr.ExitErr)
+				e.Res.Fatal("race run failed: %s", rr.ExitErr)
 			} else if rr.Counts["blocks_replayed"] > 0 {
 				e.Res.Sig("race-run|clean|worlds=%d", rr.Counts["worlds"])
 			}
